@@ -3,6 +3,7 @@
 -/
 import C4E.Distributor
 import C4E.Bridge
+import C4E.Upgrade
 import C4E.Proto
 namespace C4E.Drv.Distr
 open C4E C4E.Distr C4E.Proto C4E.CoinList
@@ -128,6 +129,13 @@ def step (w : W) (toks : List String) : W × String :=
       | some ns => ({ w with params := ns }, "ok")
       | none => (w, "err")
     | none => (w, "bad-op")
+  | ["d.up.migrate3"] =>
+    -- nil entries / nil decimals do not survive the JSON encoding of the legacy parameter store
+    if w.pending.any (fun s => s.burnShare.isNone || s.sources.any (·.isNone) ||
+        s.shares.any (fun sh => sh.isNil || sh.share.isNone)) then (w, "?") else
+    match C4E.Upgrade.migrateDistrV3 w.env w.pending with
+    | some ns => ({ w with params := ns }, "ok p=" ++ showParams ns)
+    | none => (w, "err")
   | ["d.params"] => (w, "ok p=" ++ showParams w.params)
   | ["d.end"] => (w, ".")
   | _ => (w, "bad-op")
